@@ -1041,3 +1041,11 @@ M("c14-left-anchor-direction-reversed", "C14", "cola/libdialect/chains.cpp",
   "            CardinalDir dIn = m_graph->getSepMatrix().getCardinalDir(A->id(), b->id());", "            CardinalDir dIn = m_graph->getSepMatrix().getCardinalDir(b->id(), A->id());", mention=["CHAIN-DIRECTIONS"])
 M("c02-merge-adds-before-shifting", "C02", "cola/libvpsc/block.cpp",
   "        v->offset+=dist;\n        addVariable(v);", "        addVariable(v);\n        v->offset+=dist;", mention=["MERGE-OPTIMUM"])
+M("c03-bounding-box-one-extreme-per-vertex", "C03", "cola/libavoid/geomtypes.cpp",
+  "        bBox.min.y = std::min(bBox.min.y, at(i).y);\n        bBox.max.x = std::max(bBox.max.x, at(i).x);\n        bBox.max.y = std::max(bBox.max.y, at(i).y);",
+  "        bBox.max.x = std::max(bBox.max.x, at(i).x);\n        if (at(i).x > bBox.min.x) { bBox.min.y = std::min(bBox.min.y, at(i).y); }\n        bBox.max.y = std::max(bBox.max.y, at(i).y);",
+  mention=["BOUNDING-BOX-ENCLOSES"])
+M("c03-naive-visibility-second-half-skips-endpoints", "C03", "cola/libavoid/visibility.cpp",
+  "            if (k->id == dummyOrthogID)\n            {\n                // Don't include orthogonal dummy vertices.\n                continue;\n            }\n            EdgeInf::checkEdgeVisibility(curr, k, knownNew);",
+  "            if (k->id == dummyOrthogID)\n            {\n                // Don't include orthogonal dummy vertices.\n                continue;\n            }\n            if (k->id.isConnPt()) continue;\n            EdgeInf::checkEdgeVisibility(curr, k, knownNew);",
+  mention=["NAIVE-VISIBILITY-COVERS-ALL"])
